@@ -565,6 +565,9 @@ done:
 		out_hash(doc); out_hash(ph);
 		out_fmt("t=%llu pub=%s when=%lld refs=%zu urls=%zu", (unsigned long long)KSI_Integer_getUInt64(t), ps ? KSI_Utf8String_cstr(ps) : "(null)", (long long)when, KSI_Utf8StringList_length(refs), KSI_Utf8StringList_length(urls));
 	}
+	/* a failed call has nothing to hand out: a caller that follows the convention does not look at the outputs then */
+	if (res != KSI_OK && (ph != NULL || ps != NULL || refs != NULL || urls != NULL))
+		out_fmt("outputs set by the failed call: hash=%d string=%d refs=%d urls=%d", ph != NULL, ps != NULL, refs != NULL, urls != NULL);
 	KSI_DataHash_free(ph);
 	KSI_Utf8String_free(ps);
 	KSI_Utf8StringList_free(refs);
